@@ -253,15 +253,28 @@ def eval_skip_test(g, test, st):
     return ev(test)
 
 
-def emitted_in_state(g, st):
-    """Is the callback called (a constraint emitted) in abstract state st?  Uses the `if` tests that guard the call
-    inside the innermost sample loop."""
+def inner_paths(g, st):
+    """Paths of the innermost sample loop body in abstract pair state st (tests outside the pair domain are explored both ways)."""
+    from .absint import PathEval
     inner = g.loops[-1]["node"]
-    ok = True
-    for test, branch, _if in flow.conditions_guarding(g.cb_stmt, stop=inner):
-        v = eval_skip_test(g, test, st)
-        ok = ok and (v if branch else not v)
-    return ok
+
+    def decide(t):
+        try:
+            return eval_skip_test(g, t, st)
+        except AnalysisError:
+            return None
+    f = ast.FunctionDef(name="_pair", args=ast.arguments(posonlyargs=[], args=[], kwonlyargs=[], kw_defaults=[], defaults=[]), body=inner.body, decorator_list=[])
+    return PathEval(f, decide, loop_mode="once").run()
+
+
+def emitted_in_state(g, st):
+    """Is the callback called (a constraint emitted) in abstract state st?  Decided on the paths of the innermost loop body, so that
+    `if skip: ...; continue` and `if skip: ... else: emit` are the same thing."""
+    ps = [p for p in inner_paths(g, st) if p.kind != "raise"]
+    vals = {any(ev is g.cb_stmt for ev in p.trace) for p in ps}
+    if len(vals) != 1:
+        raise AnalysisError("%s: whether a pair is emitted depends on something else than (same sample, index order, symmetry flag) in state %s" % (g.fn.name, st))
+    return vals.pop()
 
 
 # ---------------------------------------------------------------------------------------------------
